@@ -110,8 +110,9 @@ class HardDipolePotential(InvertiblePotential):
                 return (velocity_dot_separation - sqrt(minimum_square_root_term)) / velocity_squared
         maximum_square_root_term = (velocity_dot_separation * velocity_dot_separation
                                     - velocity_squared * (separation_squared - self._maximum_separation_squared))
-        assert maximum_square_root_term >= 0.0
-        return (velocity_dot_separation + sqrt(maximum_square_root_term)) / velocity_squared
+        # The separation may exceed the maximum separation by rounding (see assertion above).
+        assert maximum_square_root_term > -1.0e-13 * velocity_squared
+        return (velocity_dot_separation + sqrt(max(0.0, maximum_square_root_term))) / velocity_squared
 
     def derivative(self, velocity: Sequence[float], separation: Sequence[float]) -> float:
         """
